@@ -175,6 +175,81 @@ KeyNodes(name, vals, d, c) ==
       cands == {Node(d, i) : i \in 1..D.n}
   IN {x \in cands : \E k \in decls : Matches(c.keys[k].match, x, c) /\ (useVals(k, x) \cap vals # {})}
 
+(* names as code point sequences (generated): the XSLT 1.0 instructions, and the XPath core + XSLT functions *)
+XsltInstructionNames == {<<97, 112, 112, 108, 121, 45, 105, 109, 112, 111, 114, 116, 115>>,
+   <<97, 112, 112, 108, 121, 45, 116, 101, 109, 112, 108, 97, 116, 101, 115>>,
+   <<97, 116, 116, 114, 105, 98, 117, 116, 101>>,
+   <<99, 97, 108, 108, 45, 116, 101, 109, 112, 108, 97, 116, 101>>,
+   <<99, 104, 111, 111, 115, 101>>,
+   <<99, 111, 109, 109, 101, 110, 116>>,
+   <<99, 111, 112, 121>>,
+   <<99, 111, 112, 121, 45, 111, 102>>,
+   <<101, 108, 101, 109, 101, 110, 116>>,
+   <<102, 97, 108, 108, 98, 97, 99, 107>>,
+   <<102, 111, 114, 45, 101, 97, 99, 104>>,
+   <<105, 102>>,
+   <<109, 101, 115, 115, 97, 103, 101>>,
+   <<110, 117, 109, 98, 101, 114>>,
+   <<112, 114, 111, 99, 101, 115, 115, 105, 110, 103, 45, 105, 110, 115, 116, 114, 117, 99, 116, 105, 111, 110>>,
+   <<116, 101, 120, 116>>,
+   <<118, 97, 108, 117, 101, 45, 111, 102>>,
+   <<118, 97, 114, 105, 97, 98, 108, 101>>}
+(* XSLT elements that are not instructions: whether element-available() is true for them was clarified only later (erratum / XSLT 2.0: false); not judged *)
+XsltOtherElementNames == {<<105, 109, 112, 111, 114, 116>>,
+   <<105, 110, 99, 108, 117, 100, 101>>,
+   <<115, 116, 114, 105, 112, 45, 115, 112, 97, 99, 101>>,
+   <<112, 114, 101, 115, 101, 114, 118, 101, 45, 115, 112, 97, 99, 101>>,
+   <<111, 117, 116, 112, 117, 116>>,
+   <<107, 101, 121>>,
+   <<100, 101, 99, 105, 109, 97, 108, 45, 102, 111, 114, 109, 97, 116>>,
+   <<110, 97, 109, 101, 115, 112, 97, 99, 101, 45, 97, 108, 105, 97, 115>>,
+   <<97, 116, 116, 114, 105, 98, 117, 116, 101, 45, 115, 101, 116>>,
+   <<118, 97, 114, 105, 97, 98, 108, 101>>,
+   <<112, 97, 114, 97, 109>>,
+   <<116, 101, 109, 112, 108, 97, 116, 101>>,
+   <<115, 116, 121, 108, 101, 115, 104, 101, 101, 116>>,
+   <<116, 114, 97, 110, 115, 102, 111, 114, 109>>,
+   <<115, 111, 114, 116>>,
+   <<119, 105, 116, 104, 45, 112, 97, 114, 97, 109>>,
+   <<119, 104, 101, 110>>,
+   <<111, 116, 104, 101, 114, 119, 105, 115, 101>>}
+XsltFunctionNames == {<<108, 97, 115, 116>>,
+   <<112, 111, 115, 105, 116, 105, 111, 110>>,
+   <<99, 111, 117, 110, 116>>,
+   <<105, 100>>,
+   <<108, 111, 99, 97, 108, 45, 110, 97, 109, 101>>,
+   <<110, 97, 109, 101, 115, 112, 97, 99, 101, 45, 117, 114, 105>>,
+   <<110, 97, 109, 101>>,
+   <<115, 116, 114, 105, 110, 103>>,
+   <<99, 111, 110, 99, 97, 116>>,
+   <<115, 116, 97, 114, 116, 115, 45, 119, 105, 116, 104>>,
+   <<99, 111, 110, 116, 97, 105, 110, 115>>,
+   <<115, 117, 98, 115, 116, 114, 105, 110, 103, 45, 98, 101, 102, 111, 114, 101>>,
+   <<115, 117, 98, 115, 116, 114, 105, 110, 103, 45, 97, 102, 116, 101, 114>>,
+   <<115, 117, 98, 115, 116, 114, 105, 110, 103>>,
+   <<115, 116, 114, 105, 110, 103, 45, 108, 101, 110, 103, 116, 104>>,
+   <<110, 111, 114, 109, 97, 108, 105, 122, 101, 45, 115, 112, 97, 99, 101>>,
+   <<116, 114, 97, 110, 115, 108, 97, 116, 101>>,
+   <<98, 111, 111, 108, 101, 97, 110>>,
+   <<110, 111, 116>>,
+   <<116, 114, 117, 101>>,
+   <<102, 97, 108, 115, 101>>,
+   <<108, 97, 110, 103>>,
+   <<110, 117, 109, 98, 101, 114>>,
+   <<115, 117, 109>>,
+   <<102, 108, 111, 111, 114>>,
+   <<99, 101, 105, 108, 105, 110, 103>>,
+   <<114, 111, 117, 110, 100>>,
+   <<100, 111, 99, 117, 109, 101, 110, 116>>,
+   <<107, 101, 121>>,
+   <<102, 111, 114, 109, 97, 116, 45, 110, 117, 109, 98, 101, 114>>,
+   <<99, 117, 114, 114, 101, 110, 116>>,
+   <<117, 110, 112, 97, 114, 115, 101, 100, 45, 101, 110, 116, 105, 116, 121, 45, 117, 114, 105>>,
+   <<103, 101, 110, 101, 114, 97, 116, 101, 45, 105, 100>>,
+   <<115, 121, 115, 116, 101, 109, 45, 112, 114, 111, 112, 101, 114, 116, 121>>,
+   <<101, 108, 101, 109, 101, 110, 116, 45, 97, 118, 97, 105, 108, 97, 98, 108, 101>>,
+   <<102, 117, 110, 99, 116, 105, 111, 110, 45, 97, 118, 97, 105, 108, 97, 98, 108, 101>>}
+
 EvalFn(e, c) ==
   LET F == c.f
       name == e.name
@@ -226,6 +301,19 @@ EvalFn(e, c) ==
                                  D == DocOf(F, c.n) IN
                              NS({Node(ND(c.n), i) : i \in UNION {ElemsWithId(D, t) : t \in toks}})
     [] name = "current"   -> NS({c.cur})
+    [] name = "element-available" ->      \* XSLT 15: true iff the QName names an instruction; an XSLT processor knows exactly the XSLT
+                                          \* instructions (a top-level element such as xsl:template is not an instruction)
+                             LET q == strArg(1)
+                                 xslp == <<120, 115, 108, 58>>          \* "xsl:" - the generators bind this prefix to the XSLT namespace
+                                 instr == XsltInstructionNames IN
+                             IF Len(q) > 4 /\ SubSeq(q, 1, 4) = xslp /\ SubSeq(q, 5, Len(q)) \in XsltOtherElementNames THEN UnmV
+                             ELSE BV(Len(q) > 4 /\ SubSeq(q, 1, 4) = xslp /\ SubSeq(q, 5, Len(q)) \in instr)
+    [] name = "function-available" ->
+                             LET q == strArg(1)
+                                 fns == XsltFunctionNames IN
+                             BV(q \in fns)
+    [] name = "system-property" ->
+                             IF strArg(1) = <<120, 115, 108, 58, 118, 101, 114, 115, 105, 111, 110>> THEN NV(One) ELSE UnmV      \* xsl:version = 1.0; the vendor properties are not modelled
     [] name = "generate-id" ->      \* XSLT 12.4: some string that identifies the node - only equality of two results is meaningful, so the
                                     \* generators use it under "=" only; this model's identifier is the node's coordinates
                              IF nodeArg.t # "ns" THEN ErrV
